@@ -219,12 +219,12 @@ def imap(func, *args):
 
 
 def starmap(func, args):
-    pool = ThreadPool(min(len(args[0]), MAX_MAP_ASYNC_THREADS))
+    pool = ThreadPool(min(len(args), MAX_MAP_ASYNC_THREADS))
     return pool.starmap(func, args)
 
 
 def starcall(args):
-    pool = ThreadPool(min(len(args[0]), MAX_MAP_ASYNC_THREADS))
+    pool = ThreadPool(min(len(args), MAX_MAP_ASYNC_THREADS))
     return pool.starcall(args)
 
 
